@@ -102,6 +102,19 @@ class Lib:
                 nm = 'vec_' + e.mangle()
                 self.gen_once(nm, 'DEF_VEC(%s, %s)' % (nm, e.c))
                 return TI('vec', nm, elem=e, name=s)
+        m = re.match(r'^(?:std::)?deque<(.*)>$', s)
+        if m:
+            # std::deque<T>: same model as vector (front removal shifts)
+            e = em.T(split_top(m.group(1))[0])
+            if e.kind in ('int', 'rec', 'ptr', 'opq'):
+                nm = 'vec_' + ('handler' if e.kind == 'opq' else e.mangle())
+                self.gen_once(nm, 'DEF_VEC(%s, %s)' % (nm, e.c))
+                return TI('vec', nm, elem=e, name=s)
+        m = re.match(r'^std::_Deque_iterator<(.*)>$', s)
+        if m:
+            e = em.T(split_top(m.group(1))[0])
+            if e.kind in ('int', 'rec', 'ptr', 'opq'):
+                return TI('vit', e.c + ' *', elem=e, name=s)
         m = re.match(r'^__gnu_cxx::__normal_iterator<(.*) \*, std::vector<(.*)>>$', s)
         if m:
             parts = split_top(m.group(2))
@@ -428,7 +441,8 @@ class Lib:
     def vec_method(self, em, ti, m, o, args, n):
         tbl = {'size': 'size', 'empty': 'empty', 'back': 'back', 'front': 'front', 'pop_back': 'pop_back',
                'begin': 'begin', 'end': 'end', 'cbegin': 'begin', 'cend': 'end', 'push_back': 'push_back',
-               'clear': 'clear', 'operator[]': 'at', 'erase': 'erase', 'insert': 'insert'}
+               'clear': 'clear', 'operator[]': 'at', 'erase': 'erase', 'insert': 'insert', 'pop_front': 'pop_front',
+               'emplace_back': 'push_back'}
         if m not in tbl:
             return None
         real = [x for x in args if x.get('kind') != 'CXXDefaultArgExpr']
@@ -437,7 +451,17 @@ class Lib:
             f = '%s_erase_range' % ti.c
         if m == 'insert' and len(real) == 3:
             f = '%s_insert_range' % ti.c
-        a = [o] + [em.e(x) for x in real]
+        if m == 'emplace_back' and len(real) == 1 and ti.elem.kind == 'opq' and em.T(qt(real[0])).kind != 'opq':
+            # element constructed in place from another type (type erasure): an opaque constructor
+            key = 'stub__ctor__' + sanitize(em.short_type(ti.elem.name or 'elem'))[:50]
+            for pat, rep in getattr(em, 'stub_aliases', []):
+                if re.search(pat, key):
+                    key = re.sub(pat, rep, key)
+                    break
+            em.stubs[key] = ('opq_t', ['opq_t'])
+            a = [o, '%s((opq_t)(long)%s)' % (key, em.addr(real[0]))]
+        else:
+            a = [o] + [em.e(x) for x in real]
         call = '%s(%s)' % (f, ', '.join(a))
         if m in ('back', 'front', 'operator[]'):
             return '(*%s)' % call
